@@ -132,17 +132,28 @@ pub fn requester_case(rng: &mut Rng, keys: &mut Keys, cid: u64) -> (String, Hash
     steps.push(format!("(mkRStep (IStart 1%N) {} {} {} {})", s0, o0, cf::b(h0), cf::b(panicked)));
     sig_kinds.push("start".into());
     let attack = rng.chance(1, 4);
+    let mut restarts = 0u32;
     let budget = 60 + 100 * w.built.len();
     let mut n = 0;
     while !panicked && n < budget {
         n += 1;
+        // now and then the block is handed to repair AGAIN while its repair is in progress
+        if restarts < 2 && rng.chance(1, 25) {
+            restarts += 1;
+            { let r = &mut repair; let rt2 = &rt; let b2 = bid.clone(); let res = catch_unwind(AssertUnwindSafe(|| rt2.block_on(r.repair_block(b2)))); panicked |= res.is_err(); }
+            let (s1, o1, h1) = if panicked { ("[]".to_string(), "[]".to_string(), false) } else { observe(&repair, &net, &blockstore, &rt, &mut brx) };
+            steps.push(format!("(mkRStep (IStart 1%N) {} {} {} {})", s1, o1, cf::b(h1), cf::b(panicked)));
+            sig_kinds.push(format!("restart{}", if panicked { ":panic" } else { "" }));
+            *kinds.entry("restart").or_default() += 1;
+            continue;
+        }
         let mut outstanding = repair.verif_outstanding();
         outstanding.sort_by_key(|t| r_req(t, &key_of));
         if outstanding.is_empty() { break; }
         let req = outstanding[rng.below(outstanding.len() as u64) as usize].clone();
         // choose what arrives for this request
         let is_s0 = matches!(&req, RepairRequestType::Shred(_, s, _) if wincode::serialize(s).map(|x| x[..8] == [0u8; 8]).unwrap_or(false));
-        let mode = if attack && is_s0 && !attacked.contains(&r_req(&req, &key_of)) { attacked.insert(r_req(&req, &key_of)); "byzantine-slice" } else { match rng.below(20) { 0..=8 => "honest", 9 => "cross-slot-shred", 10 => "tag-flipped", 11 => "nack", 12 => "bad-proof", 13 => "wrong-variant", 14 => "wrong-root", 15 => "replay", 16 => "unsolicited", 17 => "wrong-shred", 18 => "byzantine-slice", 19 => "flipped-last-flag", _ => "honest" } };
+        let mode = if attack && is_s0 && !attacked.contains(&r_req(&req, &key_of)) { attacked.insert(r_req(&req, &key_of)); "byzantine-slice" } else { match rng.below(21) { 0..=8 => "honest", 20 => "known-root-claimed-as-last", 9 => "cross-slot-shred", 10 => "tag-flipped", 11 => "nack", 12 => "bad-proof", 13 => "wrong-variant", 14 => "wrong-root", 15 => "replay", 16 => "unsolicited", 17 => "wrong-shred", 18 => "byzantine-slice", 19 => "flipped-last-flag", _ => "honest" } };
         let honest = |req: &RepairRequestType| -> RepairResponse {
             match req {
                 RepairRequestType::LastSliceRoot(_) => { let l = w.built.len() - 1; RepairResponse::LastSliceRoot(req.clone(), slice_index(l as u64), w.roots[l].clone(), w.tree.create_proof(l)) }
@@ -156,6 +167,11 @@ pub fn requester_case(rng: &mut Rng, keys: &mut Keys, cid: u64) -> (String, Hash
                 RepairResponse::LastSliceRoot(r, l, root, p) => { let mut v: Vec<Hash> = p.as_ref().to_vec(); if v.is_empty() { v.push(Hash::random_for_test()); } else { v[0] = Hash::random_for_test(); } RepairResponse::LastSliceRoot(r, l, root, DoubleMerkleProof::from(v)) }
                 RepairResponse::SliceRoot(r, root, p) => { let mut v: Vec<Hash> = p.as_ref().to_vec(); v.push(Hash::random_for_test()); RepairResponse::SliceRoot(r, root, DoubleMerkleProof::from(v)) }
                 x => x,
+            },
+            "known-root-claimed-as-last" => match &req {
+                // the true root of a NON-last slice with its (valid) membership proof, offered as the last slice
+                RepairRequestType::LastSliceRoot(_) if w.built.len() > 1 => RepairResponse::LastSliceRoot(req.clone(), slice_index(0), w.roots[0].clone(), w.tree.create_proof(0)),
+                _ => honest(&req),
             },
             "wrong-variant" => match &req {
                 RepairRequestType::LastSliceRoot(_) => RepairResponse::SliceRoot(req.clone(), w.roots[0].clone(), w.tree.create_proof(0)),
@@ -320,7 +336,7 @@ pub fn gen_c14(seed: u64, tier: Tier) -> CaseSet {
         descr.push(format!("case {}: responder, answers failing verification: {}, panicked: {}", cid, problems, panicked));
         cases.push(txt); cid += 1;
     }
-    stats.rule = "requester: a 1-2 slice block of a fresh leader is repaired through the real Repair state machine; for a randomly chosen outstanding request the next arriving response is correct (50%), the correct shred with its unsigned data / coding type tag flipped, a NACK, has a corrupted proof, the wrong variant, another (validly signed) slice's root, is a replay of an earlier response, unsolicited, a shred with another index, the right shred signed for another slot of the leader's window, or a shred of a conflicting slice the (Byzantine) leader also signed; hostile responses routinely arrive before the correct one. responder: every request kind for existing / out-of-range slice and shred indices, a block it holds completely (sometimes with an unfinished repair of the same block filed earlier) or only partially, an unknown block, known and unknown senders; every positive answer is verified with the real check_proof / check_proof_last / ValidatedShred::try_new. non-trivial = distinct trace".into();
+    stats.rule = "requester: a 1-2 slice block of a fresh leader is repaired through the real Repair state machine; for a randomly chosen outstanding request the next arriving response is correct (50%), the correct shred with its unsigned data / coding type tag flipped, a NACK, has a corrupted proof, the wrong variant, another (validly signed) slice's root, is a replay of an earlier response, unsolicited, a shred with another index, the right shred signed for another slot of the leader's window, the true root of a non-last slice offered as last slice (also after the block was handed to repair a second time), or a shred of a conflicting slice the (Byzantine) leader also signed; hostile responses routinely arrive before the correct one. responder: every request kind for existing / out-of-range slice and shred indices, a block it holds completely (sometimes with an unfinished repair of the same block filed earlier) or only partially, an unknown block, known and unknown senders; every positive answer is verified with the real check_proof / check_proof_last / ValidatedShred::try_new. non-trivial = distinct trace".into();
     let mut v: Vec<_> = kinds_total.into_iter().collect(); v.sort();
     stats.distribution.push(("response_kinds".into(), v.iter().map(|(k, c)| format!("{}={}", k, c)).collect::<Vec<_>>().join(", ")));
     stats.distribution.push(("requester_cases_completed".into(), format!("{} of {}", completed, nreq)));
